@@ -122,7 +122,7 @@ pub fn run_jobs(jobs: Vec<Value>, cfg: &PoolCfg) -> Vec<Value> {
                     let to = timeout * (hi - lo) as u32;
                     match w.call(&line, to) {
                         Ok(resp) => {
-                            if let Ok(Value::Array(rs)) = serde_json::from_str::<Value>(&resp) {
+                            if let Ok(Value::Array(rs)) = crate::util::parse_json(&resp) {
                                 if rs.len() == hi - lo {
                                     let mut g = results.lock().unwrap();
                                     for (k, r) in rs.into_iter().enumerate() {
@@ -142,7 +142,7 @@ pub fn run_jobs(jobs: Vec<Value>, cfg: &PoolCfg) -> Vec<Value> {
                     for i in lo..hi {
                         let line = serde_json::to_string(&jobs[i]).unwrap();
                         let r = match w.call(&line, timeout) {
-                            Ok(resp) => serde_json::from_str::<Value>(&resp)
+                            Ok(resp) => crate::util::parse_json(&resp)
                                 .unwrap_or_else(|_| json!({"abort": true, "garbled": resp})),
                             Err(kind) => {
                                 w.kill();
@@ -182,7 +182,7 @@ pub fn worker_main(handler: fn(&Value) -> Value) {
             Ok(l) => l,
             Err(_) => break,
         };
-        let v: Value = match serde_json::from_str(&line) {
+        let v: Value = match crate::util::parse_json(&line) {
             Ok(v) => v,
             Err(e) => {
                 let _ = writeln!(out, "{}", json!({"error": format!("bad job: {e}")}));
